@@ -111,6 +111,21 @@ NestLock(k) ==
       <<Forall("E", X, "auto", <<Forall("F", V("E"), "auto", <<PutS(<<V("F")>>)>>)>>), Do(Mem(X, "delete", <<I(0)>>))>> }
   ELSE {}
 
+\* the same methods through an ELEMENT of a container (X.at(0).concat(a), X.at(0).set@1(a)): the element non-null, set to null,
+\* or an empty table; arguments of the inner element type, of other types, typed and untyped nulls, directly and through the opaque route
+E0 == Mem(X, "at", <<I(0)>>)
+ElemPre == << <<>>, <<Do(Mem(X, "put", <<I(0), NullC>>))>>, <<Do(Mem(X, "put", <<I(0), Call("tab", <<>>)>>))>>, <<Do(Mem(X, "put", <<I(0), Opaque(NullC)>>))>> >>
+ElemArgs == ArgsX("ti") \o ArgsX("tt")
+\* [ops, sok]: sok = the argument is written directly (its static type is known: the compiler may refuse the call whatever would
+\* happen at run time)
+NArgs(k) == Len(Args(k))
+ElemSok(a) == a <= NArgs("ti") \/ (a > 2 * NArgs("ti") /\ a <= 2 * NArgs("ti") + NArgs("tt"))
+ElemProgs == { [ops |-> ElemPre[i] \o <<Do(Mem(E0, "concat", <<ElemArgs[a]>>))>>, sok |-> ElemSok(a)] : i \in DOMAIN ElemPre, a \in DOMAIN ElemArgs }
+             \cup { [ops |-> ElemPre[i] \o <<Do(Mem(E0, m, <<I(0), ElemArgs[a]>>))>>, sok |-> ElemSok(a)] : i \in DOMAIN ElemPre, a \in DOMAIN ElemArgs, m \in {"put", "insert"} }
+             \cup { [ops |-> ElemPre[i] \o <<Do(Mem(E0, "concat", <<ElemArgs[a]>>)), Do(Mem(E0, "concat", <<ElemArgs[b]>>))>>, sok |-> ElemSok(a)] : i \in {2}, a \in DOMAIN ElemArgs, b \in {1, 3} }
+TupElemPre == << <<>>, <<Do(Mem(X, "put", <<I(0), NullC>>))>>, <<Do(Mem(X, "put", <<I(0), Call("tup", <<>>)>>))>> >>
+TupElemProgs == { [ops |-> TupElemPre[i] \o <<Do(SetAt(E0, j, ArgsX("tup")[a]))>>, sok |-> a <= NArgs("tup")] : i \in DOMAIN TupElemPre, j \in 1..2, a \in DOMAIN ArgsX("tup") }
+                \cup { [ops |-> TupElemPre[i] \o <<Do(Mem(E0, "concat", <<ArgsX("tu")[a]>>))>>, sok |-> a <= NArgs("tu")] : i \in DOMAIN TupElemPre, a \in DOMAIN ArgsX("tu") }
 VARIABLE p
 Init == p \in UNION {LET ops == TLCEval(Ops(k)) IN {[k |-> k, ops |-> <<ops[j]>>] : j \in DOMAIN ops} : k \in Kinds}
               \cup (IF H >= 2 THEN UNION {LET red == TLCEval(Reduced(k)) IN {[k |-> k, ops |-> <<red[i], red[j]>>] : i \in DOMAIN red, j \in DOMAIN red} : k \in Kinds} ELSE {})
@@ -118,13 +133,14 @@ Init == p \in UNION {LET ops == TLCEval(Ops(k)) IN {[k |-> k, ops |-> <<ops[j]>>
               \cup (IF H >= 3 THEN UNION {LET red == TLCEval(Reduced(k)) IN {[k |-> k, ops |-> <<red[i], red[j], red[q]>>] : i \in DOMAIN red, j \in DOMAIN red, q \in DOMAIN red} : k \in Kinds} ELSE {})
               \cup UNION {{[k |-> k, ops |-> <<x[1]>>, lock |-> TRUE] : x \in LockProgs(k) \cup IterProgs(k)} : k \in Kinds}
               \cup UNION {{[k |-> k, ops |-> x, lock |-> TRUE] : x \in NestLock(k)} : k \in Kinds}
+              \cup {[k |-> "tt", ops |-> x.ops, sok |-> x.sok, key |-> "elem"] : x \in ElemProgs} \cup {[k |-> "tu", ops |-> x.ops, sok |-> x.sok, key |-> "elem"] : x \in TupElemProgs}
               \cup {[k |-> "tup", ops |-> x] : x \in RankProgs} \cup {[k |-> "tup", ops |-> x, key |-> "struct"] : x \in StructProgs}
 Next == UNCHANGED p
 ExecStep(prog) == [op |-> "exec", ctx |-> 0, ast |-> prog, text |-> Render(prog), unpinned |-> TRUE]
 Scenario(q) ==
   LET Steps[j \in 0..Len(q.ops)] ==
         IF j = 0 THEN << [op |-> "exec", ctx |-> 0, ast |-> Pre(q.k), text |-> Render(Pre(q.k))], [op |-> "dump", ctx |-> 0] >>
-        ELSE Steps[j - 1] \o << ExecStep(<<q.ops[j]>>), [op |-> "dump", ctx |-> 0] >>
+        ELSE Steps[j - 1] \o << (IF "sok" \in DOMAIN q /\ q.sok THEN ExecStep(<<q.ops[j]>>) @@ [static_ok |-> TRUE] ELSE ExecStep(<<q.ops[j]>>)), [op |-> "dump", ctx |-> 0] >>
   IN [prop |-> "C09", key |-> IF "key" \in DOMAIN q THEN q.key ELSE q.k, steps |-> Steps[Len(q.ops)]]
 Emit == PrintT("@@S " \o ToJson(Scenario(p)))
 =============================================================================
